@@ -35,6 +35,7 @@ inductive AuxRule where
   | lockstep                 -- one value per item of the stage's main input (pair source)
   | lag1                     -- `resample` step stream: the value is read after the yield
   | event (delta : Rat)      -- data of a Streamix event with absolute time `delta`
+  | never                    -- a stream appended AFTER the main source: not touched while that lasts
 
 structure AuxDecl where
   stage : Nat
@@ -47,6 +48,7 @@ def getAux (j : Json) : Except String AuxDecl := do
   | "lockstep" => pure ⟨st, .lockstep⟩
   | "lag1" => pure ⟨st, .lag1⟩
   | "event" => pure ⟨st, .event (← getRat (← field j "delta"))⟩
+  | "never" => pure ⟨st, .never⟩
   | _ => throw s!"C02: unknown auxiliary rule {r}"
 
 /-- pull counter of the auxiliary source after the owning stage has delivered `out` outputs,
@@ -66,6 +68,10 @@ def auxModel (d : Option Desc) (a : AuxRule) (ins outs : List Nat) : List Nat :=
   | .event delta =>
     let P := (smixS delta ()).pulls (List.replicate M ()) M
     outs.map (auxAt P)
+  | .never =>
+    -- `padS pre post`: the appended items are the epilogue, which runs when the source has ended;
+    -- the protocol counter of the main input is the only counter that moves before
+    outs.map (fun _ => (padS ([] : List Unit) []).start.nread)
 
 /-- SPEC: the closed forms -/
 def auxSpec (a : AuxRule) (ins outs : List Nat) : List Nat :=
@@ -73,6 +79,7 @@ def auxSpec (a : AuxRule) (ins outs : List Nat) : List Nat :=
   | .lockstep => ins
   | .lag1 => outs.map auxNeedLag1
   | .event delta => outs.map (auxNeedEvent delta)
+  | .never => outs.map (fun _ => 0)
 
 def handle (entry : String) (j : Json) : Except String Json := do
   match entry with
